@@ -350,3 +350,128 @@ Proof.
   cbv zeta. split; [|split; [reflexivity | split; [repeat constructor; lia | reflexivity]]].
   repeat constructor; try (unfold Qclt; vm_compute; reflexivity); try (apply Qc_is_canon; reflexivity).
 Qed.
+
+(* ======================================================================================================================
+   Phase 3.  (1) is C20_smooth_normal_equations_minimise_uniform / _dimension_wise above (unconditional in every dimension).
+   (2) The converse and uniqueness (Proofs/RegressConverse.v): every minimiser of J satisfies the normal equations of the
+   model - M symmetric, NO definiteness and NO sign condition on lambda needed; for positive definite systems the minimiser and
+   the solution of the normal equations are unique (instance: identity regularisation with lambda > 0, any design matrix). *)
+From SG Require Import Proofs.RegressConverse.
+
+Theorem C20_minimiser_satisfies_normal_equations : forall n A y lam M alpha,
+  wf_matrix n A -> A <> [] -> length y = length A -> wf_matrix n M -> length M = n -> length alpha = n ->
+  bilinear_symmetric n M ->
+  (forall beta, length beta = n -> J A y lam M alpha <= J A y lam M beta) ->
+  matvec (left_matrix_gen A lam M) alpha = right_vector A y.
+Proof. exact minimiser_satisfies_normal_equations. Qed.
+(* together with C20_normal_equations_minimise: for symmetric positive semi-definite M and lambda >= 0,
+   alpha minimises J  <->  alpha solves the normal equations *)
+Theorem C20_minimiser_iff_normal_equations : forall n A y lam M alpha,
+  wf_matrix n A -> A <> [] -> length y = length A -> wf_matrix n M -> length M = n -> length alpha = n ->
+  bilinear_symmetric n M -> psd n M -> 0 <= lam ->
+  ((forall beta, length beta = n -> J A y lam M alpha <= J A y lam M beta)
+   <-> matvec (left_matrix_gen A lam M) alpha = right_vector A y).
+Proof.
+  intros n A y lam M alpha Hwf Hne Hy HM HlM Ha Hsym Hpsd Hlam. split.
+  - intro Hmin. apply (minimiser_satisfies_normal_equations n A y lam M alpha); assumption.
+  - intros NE beta Hb. apply (normal_equations_minimise n A y lam M alpha beta); assumption.
+Qed.
+Theorem C20_minimiser_unique : forall n A y lam M alpha beta,
+  wf_matrix n A -> A <> [] -> length y = length A -> wf_matrix n M -> length M = n -> length alpha = n -> length beta = n ->
+  bilinear_symmetric n M -> system_pd n A lam M ->
+  matvec (left_matrix_gen A lam M) alpha = right_vector A y ->
+  J A y lam M beta <= J A y lam M alpha -> beta = alpha.
+Proof. exact minimiser_unique. Qed.
+Theorem C20_normal_equations_unique : forall n A y lam M alpha beta,
+  wf_matrix n A -> A <> [] -> length y = length A -> wf_matrix n M -> length M = n -> length alpha = n -> length beta = n ->
+  bilinear_symmetric n M -> system_pd n A lam M ->
+  matvec (left_matrix_gen A lam M) alpha = right_vector A y ->
+  matvec (left_matrix_gen A lam M) beta = right_vector A y -> beta = alpha.
+Proof. exact normal_equations_unique. Qed.
+Theorem C20_ridge_minimiser_unique : forall n A y lam C alpha beta,
+  wf_matrix n A -> A <> [] -> length y = length A -> length alpha = n -> length beta = n -> 0 < lam ->
+  matvec (left_matrix A lam false C) alpha = right_vector A y ->
+  J A y lam (identity n) beta <= J A y lam (identity n) alpha -> beta = alpha.
+Proof. exact ridge_minimiser_unique. Qed.
+Print Assumptions C20_minimiser_satisfies_normal_equations.
+Print Assumptions C20_minimiser_iff_normal_equations.
+Print Assumptions C20_minimiser_unique.
+Print Assumptions C20_normal_equations_unique.
+Print Assumptions C20_ridge_minimiser_unique.
+
+(* non-vacuity: the system of C20_nonvacuous_minimiser is positive definite (ridge, lambda = 1/4) and its solution is the
+   only vector with J <= 19/21; a vector that violates the normal equations is not a minimiser (J is larger) *)
+Example C20_nonvacuous_converse :
+  let A := [[qq 1 1; qq 0 1]; [qq 0 1; qq 1 1]; [qq 1 2; qq 1 2]] in
+  let y := [qq 1 1; qq 2 1; qq 0 1] in
+  system_pd 2 A (qq 1 4) (identity 2) /\
+  matvec (left_matrix_gen A (qq 1 4) (identity 2)) [qq 1 2; qq 1 1] <> right_vector A y /\
+  J A y (qq 1 4) (identity 2) [qq 8 21; qq 20 21] < J A y (qq 1 4) (identity 2) [qq 1 2; qq 1 1].
+Proof.
+  cbv zeta. split; [apply ridge_system_pd; unfold Qclt; vm_compute; reflexivity | split].
+  - intro E. apply (f_equal (fun v => Qc_eqb (hd 0 v) (qq 1 3))) in E. vm_compute in E. discriminate.
+  - unfold Qclt. vm_compute. reflexivity.
+Qed.
+
+(* (3) Opticom (Proofs/RegressOpticom.v, model in Model/Regress.v: opticom_finish, mse, error_per_grid_raw, predict_uniform /
+   predict_nonuniform, opticom3, opticom2_matrix / opticom2_certified; entry points 8 and 9 with correspondence on every run).
+   All six variants end with opticom_finish (code after fix commit 3b1bdbd): the returned coefficients are the normalised raw
+   coefficients whenever the raw sum is non-zero and finite, else the combination coefficients are kept; in both cases they sum
+   to one, because the combination coefficients of every reachable scheme do (C01_total_one). *)
+From SG Require Import Model.CombiScheme Proofs.SchemeInv Proofs.RegressOpticom.
+
+Theorem C20_opticom_finish_normalises : forall cs coefs, sumQ cs <> 0 ->
+  opticom_finish (Some cs) coefs = normalise_coefficients cs /\ sumQ (opticom_finish (Some cs) coefs) = 1.
+Proof. exact opticom_finish_normalises. Qed.
+Theorem C20_opticom_finish_keeps : forall raw coefs,
+  (raw = None \/ exists cs, raw = Some cs /\ sumQ cs = 0) -> opticom_finish raw coefs = coefs.
+Proof. exact opticom_finish_keeps. Qed.
+Theorem C20_opticom_coefficients_sum_to_one : forall raw coefs, sumQ coefs = 1 -> sumQ (opticom_finish raw coefs) = 1.
+Proof. exact opticom_finish_sum_one. Qed.
+Theorem C20_opticom_after_combination_scheme_sums_to_one : forall s raw, Inv s ->
+  sumQ (opticom_finish raw (map (fun kc => qc_of_Z (snd kc)) (combi_scheme_adaptive s))) = 1.
+Proof. exact opticom_after_combination_scheme_sums_to_one. Qed.
+(* option 3 (error per grid), modelled completely *)
+Theorem C20_opticom3_sum_one : forall preds coefs vy, sumQ coefs = 1 -> sumQ (opticom3 preds coefs vy) = 1.
+Proof. exact opticom3_sum_one. Qed.
+Theorem C20_opticom3_regular : forall preds coefs vy,
+  existsb (fun e => Qc_eqb e 0) (map (mse vy) preds) = false ->
+  sumQ (map2 (fun c e => c / e) coefs (map (mse vy) preds)) <> 0 ->
+  opticom3 preds coefs vy = normalise_coefficients (map2 (fun c e => c / e) coefs (map (mse vy) preds)).
+Proof. exact opticom3_regular. Qed.
+Theorem C20_opticom3_degenerate : forall preds coefs vy p, vy <> [] -> In p preds -> p = vy -> opticom3 preds coefs vy = coefs.
+Proof. exact opticom3_degenerate. Qed.
+Theorem C20_validation_error_zero_iff_exact_fit : forall y p, y <> [] -> length p = length y -> (mse y p = 0 <-> p = y).
+Proof. exact mse_zero_iff. Qed.
+(* option 2 (least squares over the validation points): an exact solution of its normal equations minimises the validation error *)
+Theorem C20_opticom2_exact_minimiser : forall n preds vy raw beta,
+  let Mx := opticom2_matrix preds in
+  wf_matrix n Mx -> Mx <> [] -> length vy = length Mx -> length raw = n -> length beta = n ->
+  matvec (left_matrix Mx 0 false []) raw = right_vector Mx vy ->
+  sqnorm (vsub (matvec Mx raw) vy) <= sqnorm (vsub (matvec Mx beta) vy).
+Proof. exact opticom2_exact_minimiser. Qed.
+Print Assumptions C20_opticom_finish_normalises.
+Print Assumptions C20_opticom_finish_keeps.
+Print Assumptions C20_opticom_coefficients_sum_to_one.
+Print Assumptions C20_opticom_after_combination_scheme_sums_to_one.
+Print Assumptions C20_opticom3_sum_one.
+Print Assumptions C20_opticom3_regular.
+Print Assumptions C20_opticom3_degenerate.
+Print Assumptions C20_validation_error_zero_iff_exact_fit.
+Print Assumptions C20_opticom2_exact_minimiser.
+
+(* non-vacuity: two component grids (levels 1 and 2 in one dimension) with combination coefficients 2 and -1; regular case,
+   degenerate case (the second grid reproduces the validation targets), zero raw sum, not finite *)
+Example C20_nonvacuous_opticom :
+  let vd := [[qq 1 4]; [qq 1 2]; [qq 3 4]] in
+  let p1 := predict_uniform [1%Z] [qq 1 1] vd in
+  let p2 := predict_uniform [2%Z] [qq 1 1; qq 2 1; qq 1 1] vd in
+  p1 = [qq 1 2; qq 1 1; qq 1 2] /\ p2 = [qq 1 1; qq 2 1; qq 1 1] /\
+  mse [qq 1 1; qq 1 1; qq 1 1] p1 = qq 1 6 /\ mse [qq 1 1; qq 1 1; qq 1 1] p2 = qq 1 3 /\
+  opticom3 [p1; p2] [qq 2 1; qq (-1) 1] [qq 1 1; qq 1 1; qq 1 1] = [qq 4 3; qq (-1) 3] /\
+  opticom3 [p1; p2] [qq 2 1; qq (-1) 1] [qq 1 1; qq 2 1; qq 1 1] = [qq 2 1; qq (-1) 1] /\
+  opticom_finish (Some [qq 1 1; qq (-1) 1]) [qq 2 1; qq (-1) 1] = [qq 2 1; qq (-1) 1] /\
+  opticom_finish None [qq 2 1; qq (-1) 1] = [qq 2 1; qq (-1) 1].
+Proof.
+  cbv zeta. repeat split; try (apply forallb2_Qc_eqb_eq; vm_compute; reflexivity); try (apply Qc_is_canon; vm_compute; reflexivity).
+Qed.
